@@ -9,15 +9,19 @@ From XV Require Import Lib.Sx Model.Manager Proofs.ManagerP Model.Session Model.
 Import ListNotations.
 Open Scope nat_scope.
 
-(* After an abrupt drop or a graceful close of an established session, any number of
-   refused / transiently failing attempts, then one successful attempt: exactly one
-   more session (resumed or fresh), one more PostConnect, one more receiver. *)
+(* After an abrupt drop, a graceful close or a stream error ending an established session,
+   any number of refused / transiently failing attempts (a connection cut in the middle of
+   a negotiation is one of them), then one successful attempt: exactly one more session
+   (resumed or fresh), one more PostConnect, one more receiver. *)
 Theorem C13_one_session_per_loss : forall s t fails r,
-  m_phase s = MUp -> (t = TDrop \/ t = TClose) -> forallb is_fail fails = true ->
+  m_phase s = MUp -> (t = TDrop \/ t = TClose \/ t = TStreamError) -> forallb is_fail fails = true ->
   let s' := m_run s (ETerm t :: map EAttempt fails ++ [EAttempt (AOk r)]) in
   m_phase s' = MUp /\ m_sessions s' = S (m_sessions s) /\ m_post s' = S (m_post s) /\
   m_recv s' = S (m_recv s) /\ m_resumed s' = (if r then S (m_resumed s) else m_resumed s).
-Proof. exact one_session_per_loss. Qed.
+Proof.
+  intros s t fails r P Ht. apply one_session_per_loss; [exact P|].
+  destruct Ht as [->|[->| ->]]; reflexivity.
+Qed.
 
 (* In every reachable state, for every fault sequence: PostConnect ran once per
    session and every session got its receiver. *)
@@ -83,8 +87,9 @@ Qed.
 Example C13_example :
   let s := m_run m_init [EAttempt (AOk false); ETerm TDrop; EAttempt ARefused; EAttempt ARefused;
                          EAttempt (AOk true); ETerm TClose; EAttempt AFailTransient; EAttempt (AOk false);
+                         ETerm TStreamError; EAttempt AFailTransient; EAttempt ARefused; EAttempt (AOk false);
                          ETerm TDrop; EAttempt AFailPermanent; EAttempt (AOk false); ETerm TStop] in
-  (m_phase s, m_sessions s, m_resumed s, m_post s, m_recv s, m_failed s) = (MReturned, 3, 1, 3, 3, 3).
+  (m_phase s, m_sessions s, m_resumed s, m_post s, m_recv s, m_failed s) = (MReturned, 4, 1, 4, 4, 5).
 Proof. reflexivity. Qed.
 
 Print Assumptions C13_one_session_per_loss.
